@@ -321,6 +321,7 @@ func zoneCheck(ops []c18Op) string {
 func c18FeeQuoteHistory(c *mon.Ctx, h *c18Hist) {
 	prev := runtime.GOMAXPROCS(h.Procs)
 	defer runtime.GOMAXPROCS(prev)
+	c18ExpiryRange(c, h)
 	rec := &c18Recorder{raw: h.Mode == "feequote-raw"}
 	types := []bt.FeeType{bt.FeeTypeStandard, bt.FeeTypeData}
 	// shared state: a FeeQuotes with two known miners, two miners added later, and two free-standing quotes
@@ -1064,7 +1065,7 @@ func init() {
 		}
 	}
 	p.Floor = func(a *mon.Agg) string {
-		for _, k := range []string{"op:FeeQuote.Fee", "op:FeeQuote.AddQuote", "op:FeeQuote.Expiry", "op:FeeQuote.UpdateExpiry", "op:FeeQuote.MarshalJSON", "op:FeeQuote.UnmarshalJSON",
+		for _, k := range []string{"expiry-range:every-stored-instant-centuries-in-the-past", "expiry-range:every-stored-instant-centuries-in-the-future", "op:FeeQuote.Fee", "op:FeeQuote.AddQuote", "op:FeeQuote.Expiry", "op:FeeQuote.UpdateExpiry", "op:FeeQuote.MarshalJSON", "op:FeeQuote.UnmarshalJSON",
 			"op:FeeQuotes.Fee", "op:FeeQuotes.UpdateMinerFees", "op:FeeQuotes.AddMiner", "C18:histories-linearizable", "engine:concurrent-executions", "gomaxprocs:2", "gomaxprocs:4", "gomaxprocs:16"} {
 			if a.Cov[k] == 0 {
 				return "counter " + k + " is zero"
@@ -1082,4 +1083,66 @@ func init() {
 		return ""
 	}
 	mon.Register(p)
+}
+
+// c18ExpiryRange: expiry instants over the whole range a time.Time can hold (a quote "valid for
+// ever", a zero time, a historic date). Writers store instants of ONE side of the present only -
+// all centuries in the past, or all centuries in the future - so every answer of Expired() is
+// known whatever the interleaving and whatever the clock says, and Expiry() returns one of them.
+func c18ExpiryRange(c *mon.Ctx, h *c18Hist) {
+	past := []time.Time{{}, time.Date(1, 1, 1, 0, 0, 0, 1, time.UTC), time.Date(1000, 6, 1, 0, 0, 0, 0, time.UTC), time.Date(1677, 9, 21, 0, 12, 43, 0, time.UTC),
+		time.Date(1677, 9, 21, 0, 12, 44, 0, time.UTC), time.Date(1901, 12, 13, 20, 45, 52, 0, time.UTC), time.Date(1969, 12, 31, 23, 59, 59, 0, time.UTC), time.Unix(0, 0).UTC(), time.Date(2001, 9, 9, 1, 46, 40, 0, time.UTC)}
+	future := []time.Time{time.Date(2262, 4, 11, 23, 47, 16, 0, time.UTC), time.Date(2262, 4, 11, 23, 47, 17, 0, time.UTC), time.Date(2300, 1, 1, 0, 0, 0, 0, time.UTC), time.Date(2554, 7, 21, 23, 34, 33, 0, time.UTC),
+		time.Date(9999, 12, 31, 23, 59, 59, 0, time.UTC), time.Date(100000, 1, 1, 0, 0, 0, 0, time.UTC), time.Unix(1<<40, 0).UTC(), time.Unix(1<<62, 0).UTC()}
+	for side, set := range [][]time.Time{past, future} {
+		q := bt.NewFeeQuote()
+		q.UpdateExpiry(set[int(h.N)%len(set)])
+		var wg sync.WaitGroup
+		var wrong, foreign atomic.Int64
+		var firstWrong atomic.Value
+		wantExpired := side == 0
+		for g := 0; g < 4; g++ {
+			wg.Add(1)
+			go func(g int) {
+				defer wg.Done()
+				defer func() { _ = recover() }()
+				r := prng.New(h.N, "C18/expiry-range", uint64(side*8+g))
+				for k := 0; k < 60; k++ {
+					switch r.Intn(4) {
+					case 0:
+						q.UpdateExpiry(set[r.Intn(len(set))])
+					case 1:
+						e := q.Expiry()
+						ok := false
+						for _, s := range set {
+							if s.Equal(e) {
+								ok = true
+							}
+						}
+						if !ok {
+							foreign.Add(1)
+							firstWrong.CompareAndSwap(nil, "Expiry() = "+e.String())
+						}
+					default:
+						if q.Expired() != wantExpired {
+							wrong.Add(1)
+							firstWrong.CompareAndSwap(nil, fmt.Sprintf("Expired() = %v, stored expiry read back as %s", !wantExpired, q.Expiry()))
+						}
+					}
+					if r.Chance(1, 4) {
+						runtime.Gosched()
+					}
+				}
+			}(g)
+		}
+		wg.Wait()
+		name := []string{"every-stored-instant-centuries-in-the-past", "every-stored-instant-centuries-in-the-future"}[side]
+		c.Count("expiry-range:" + name)
+		if n := wrong.Load(); n > 0 {
+			c.Violationf("C18:expired-contradicts-every-stored-expiry:"+name, "%d answers of Expired() contradict every instant ever stored (history %d); first: %v", n, h.N, firstWrong.Load())
+		}
+		if n := foreign.Load(); n > 0 {
+			c.Violationf("C18:expiry-never-stored:"+name, "%d answers of Expiry() equal no instant ever stored (history %d); first: %v", n, h.N, firstWrong.Load())
+		}
+	}
 }
